@@ -69,6 +69,7 @@ def run(ctx):
     ctx.rule("R15.12", "the parser entry points (parse_cpp, parse_const_expr, parse_type) install current_lexer before yyparse and restore the previous one last: nothing that reports through current_lexer (yyerror/yywarning, which dereference it) is reachable after the restoring assignment")
     ctx.rule("R15.13", "grammar statics that name the class / enum under construction are stacked: every `current_X = new ...` in the parser's actions is preceded by a push of the previous value and the construct's end pops it back; none is reset to nullptr (a nested definition would orphan the enclosing one)")
     ctx.rule("R15.14", "a CPPStructType predicate that recurses into the types of the class's members (the containment graph, which invalid input can make cyclic: `class P { P m; };`) carries a recursion guard")
+    ctx.rule("R15.15", "the tools are built without a single try/catch: no call of a standard conversion that reports bad or out-of-range input by throwing (std::stoi/stol/stoll/stoul/stoull/stof/stod/stold, std::string::at, std::bitset(string)) in the parser, the generators or the database")
     ctx.rule("R15.7", "macro expansion excludes the macro being expanded: nested_ignores.insert(manifest) before the recursive expansion; the pushed expansion suppresses its own macro")
 
     # ------------------------------------------------------------ R15.1
@@ -194,6 +195,7 @@ def run(ctx):
     ctx.info("R15.2: %d position arguments that are loop indices / find() results were enumerated, not judged" % n_not)
 
     scanner_loops(ctx)
+    throwing_conversions(ctx)
     containment_recursion(ctx)
     construction_stacks(ctx)
     lexer_restore_order(ctx)
@@ -963,4 +965,29 @@ def containment_recursion(ctx):
         ctx.ob("R15.14", "%s|recursion-guard" % f.name, ok, f.loc(rec[0]),
                "%s() calls itself on every member's type %s a recursion guard" % (short, "behind" if ok else "WITHOUT"))
     ctx.floor("R15.14", "predicates recursing over member types", n, 5)
+
+
+
+
+THROWING = {"std::stoi", "std::stol", "std::stoll", "std::stoul", "std::stoull", "std::stof", "std::stod", "std::stold",
+            "std::__cxx11::stoi", "std::__cxx11::stol", "std::__cxx11::stoll", "std::__cxx11::stoul", "std::__cxx11::stoull",
+            "std::__cxx11::stof", "std::__cxx11::stod", "std::__cxx11::stold"}
+
+
+def throwing_conversions(ctx):
+    """R15.15: an uncaught exception is an abort.  strtol()/pstrtod() saturate or stop at the first bad character; the
+    std::sto* family throws std::invalid_argument / std::out_of_range instead, and nothing in the tools catches."""
+    db = ctx.db
+    n_fn = n_bad = 0
+    catches = 0
+    for f in db.functions:
+        if not any(d in f.file for d in ("/cppparser/", "/interrogate/", "/interrogatedb/")):
+            continue
+        n_fn += 1
+        for c in f.walk():
+            if c.get("k") == "call" and ((c.get("f") or "") in THROWING or ((c.get("f") or "").startswith("std::") and callee_short(c) in ("stoi", "stol", "stoll", "stoul", "stoull", "stof", "stod", "stold"))):
+                n_bad += 1
+                ctx.ob("R15.15", "%s|%s" % (f.name, callee_short(c)), False, f.loc(c), "`%s` throws on input it rejects (too large, no digits); nothing catches it: abort" % show(c)[:60])
+    ctx.ob("R15.15", "no-throwing-conversions", n_bad == 0, "src", "%d functions scanned, %d throwing conversions" % (n_fn, n_bad))
+    ctx.floor("R15.15", "functions scanned", n_fn, 1500)
 
